@@ -41,6 +41,15 @@ def gen_progs(rng, tier):
         (["createfile 0:j66", "hdrop 1000"], [["append", "f"]], [["append", "f"]]),
         (["createfile 0:j66", "hdrop 1000"], [["create_file", "f"]], [["open_read", "f"], ["metadata", "f"]]),
     ]
+    # open_file stamps the access time: with an explicitly set time before, a third thread can tell whether the stamp
+    # of an open_file that later fails was visible (repaired by e051178: stamp and read under one lock)
+    for j, third in enumerate(["metadata", "exists"]):
+        setup = ["createfile 0:j66", "hdrop 1000", "setatime 0:j66 12345"]
+        threads = [call_ops(rng, "open_read", "f", 0), call_ops(rng, "remove_file", "f", 0), call_ops(rng, third, "f", 0)]
+        progs.append(conclib.Prog("c16o%d" % j, CFG, setup, threads, "explore 6000"))
+    setup = ["createdir 0:j61", "setatime 0:j61 777"]
+    progs.append(conclib.Prog("c16o2", CFG, setup, [call_ops(rng, "open_read", "a", 0), call_ops(rng, "metadata", "a", 0)],
+                              "explore 6000"))
     for i, (setup, t0, t1) in enumerate(directed):
         threads = []
         for t in (t0, t1):
